@@ -123,6 +123,26 @@ def add_events(args):
                 ev("double", tA, None, out_point(ec, lambda: A.double()), [P], None, ajac=False)
                 ev("neg", tA, None, out_point(ec, lambda: -A), [P], None)
                 ev("affine", tA, None, out_point(ec, lambda: A.to_affine()), [P], None)
+        # the same coordinates on a sibling curve over the same field (a' = a + 1, b' = b - x0 also passes through (x0, y0)):
+        # == and != in every combination of representations, both operand orders
+        if P is not None and P == Q and P[1] % p and (4 * (a + 1) ** 3 + 27 * (b - P[0]) ** 2) % p:
+            cf2 = ec.CurveFp(p, (a + 1) % p, (b - P[0]) % p, 1)
+            def variants(curve_):
+                import pickle as _pk
+                sc = ec.PointJacobi(curve_, P[0] * 4 % p, P[1] * 8 % p, 2)
+                sc.scale()
+                return [ec.PointJacobi(curve_, P[0], P[1], 1), ec.PointJacobi(curve_, P[0] * 9 % p, P[1] * 27 % p, 3), sc,
+                        ec.Point(curve_, P[0], P[1]), _pk.loads(_pk.dumps(ec.PointJacobi(curve_, P[0], P[1], 1)))]
+            outs = []
+            try:
+                for A_ in variants(cf):
+                    for B_ in variants(cf2):
+                        outs += [bool(A_ == B_), bool(B_ == A_), not bool(A_ != B_)]
+            except BaseException as e_:  # noqa
+                outs = [True, False]      # an exception from == is reported through the inconsistent pattern
+            events.append({"c": c, "op": "eqx", "A": Z0, "B": Z0, "out": {"ok": True, "inf": True, "x": 0, "y": 0}, "k": 0, "ka": 0,
+                           "kb": 0, "raw": [], "outs": outs, "pt": [P[0], P[1]]})
+            keys.append([])
         # unary operations on P in every representation of the first slot
         for ra in sorted({r[0] for r in repsets}, key=repr):
             A = make(ec, cf, P, ra if P is not None else "inf", p)
